@@ -22,6 +22,13 @@ THEOREMS = ['Vakt.C11.step_valid', 'Vakt.C11.any_backend_transparent', 'Vakt.C11
             'Vakt.StackP.stack_transparent', 'Vakt.StackP.enfold_tracks_backend', 'Vakt.StackP.full_stack_eq_plain_guard',
             'Vakt.StackP.full_stack_lru_populated', 'Vakt.StackP.full_stack_guard_decide']
 EXTRA_IMPORTS = ['Props.Stack']
+# obligations over what was translated from /repo/vakt/storage/observable.py in this run: the mutating methods of the observable
+# wrapper call the wrapped storage and then notify exactly once (not at all when the call raised), the reading methods never notify
+# (lean/Gen/EquivEnfold.lean, against Backends.obsStep over the abstract store)
+EXTRA_BUILD = ['+Gen.EquivEnfold']
+GEN_IMPORTS = ['Gen.EquivEnfold']
+GEN_THEOREMS = ['Vakt.GenEquiv.gen_observable_add', 'Vakt.GenEquiv.gen_observable_update', 'Vakt.GenEquiv.gen_observable_delete',
+                'Vakt.GenEquiv.gen_observable_get', 'Vakt.GenEquiv.gen_observable_get_all']
 FLOOR = {'quick': 100, 'thorough': 1500}
 ASSUMPTIONS = ["functools.lru_cache's eviction order is modelled (most recently used first, trimmed to capacity) and compared "
                'hit by hit with the real cache; the general within-capacity clause is a theorem about that model '
